@@ -1781,16 +1781,24 @@ func (t *tScreen) collectEventsFromInput(buf *bytes.Buffer, expire bool) []Event
 			partials++
 		}
 
+		keyPartial := false
 		if part, comp := t.parseFunctionKey(buf, &res); comp {
 			continue
 		} else if part {
 			partials++
+			keyPartial = true
 		}
 
-		if part, comp := t.parseFocus(buf, &res); comp {
-			continue
-		} else if part {
-			partials++
+		// A focus report can also be the start of a key sequence
+		// (rxvt sends ESC [ O c for Ctrl-Right).  While such a key
+		// may still be completed by the next read, wait for it
+		// rather than splitting it into a focus event and a letter.
+		if !keyPartial || expire {
+			if part, comp := t.parseFocus(buf, &res); comp {
+				continue
+			} else if part {
+				partials++
+			}
 		}
 
 		// Only parse mouse records if this term claims to have
